@@ -1,6 +1,7 @@
 package main
 
 import (
+	"strings"
 	"encoding/json"
 	"fmt"
 	"reflect"
@@ -115,6 +116,10 @@ func c12Forms(r *Rand, t table) map[string]*Expr {
 		"async-slow":     {K: "call", Qual: "ASYNC", Name: "slowf", Items: []*Expr{Col("n2")}},
 		// the backward reference selected as a VALUE: the enclosing scope as plain data (no lazy CTE entry, no cycle)
 		"backref-value": {K: "sub", Q: &Stmt{From: &From{K: "dual"}, Items: []Item{{E: Col("<-"), Alias: "p"}}}},
+		// ASYNC on immediate, marker-returning built-ins under any spelling of their names: an error, never a marker in the row
+		"async-immediate-fuse":   {K: "call", Qual: "ASYNC", Name: "FUSE", Items: []*Expr{Col("o")}},
+		"async-immediate-setvar": {K: "call", Qual: "Async", Name: "SetVar", Items: []*Expr{Str("k"), Col("n1")}},
+		"async-immediate-report": {K: "call", Qual: "ASYNC", Name: "Report_When", Items: []*Expr{Cmp(">", Col("n1"), Num(100)), Str("x")}},
 		// a value tuple as a value: its members are plain values
 		"tuple": {K: "tuple", Items: []*Expr{Num(1), Str("a"), Bin("+", Col("n1"), Num(1)), Col("s1")}},
 	}
@@ -151,11 +156,12 @@ func genC12(r *Rand, tier string) []Case {
 		doc := map[string]any{"t": t.rows, "u": genTable(r, 3).rows, "nn": []any{t.rows, []any{}, t.rows[:1]}}
 		// a join with many distinct keys under LIMIT: the window must be the same rows on every run
 		{
-			big := make([]any, 40)
-			bigr := make([]any, 40)
+			nk := Pick(r, []int{40, 300})
+			big := make([]any, nk)
+			bigr := make([]any, nk)
 			for i := range big {
 				big[i] = map[string]any{"k": float64(i), "v": float64(i % 7)}
-				bigr[i] = map[string]any{"m": float64(39 - i), "w": float64(i % 3)}
+				bigr[i] = map[string]any{"m": float64(nk - 1 - i), "w": float64(i % 3)}
 			}
 			jq := &Stmt{From: &From{K: "join", JT: "inner", Strat: Pick(r, []string{"auto", "hash"}),
 				L: &From{K: "table", Path: []string{"big"}, Alias: "x"}, R: &From{K: "table", Path: []string{"bigr"}, Alias: "y"},
@@ -187,18 +193,18 @@ func genC12(r *Rand, tier string) []Case {
 			out = append(out, c)
 		}
 		for name, f := range forms {
-			async := name == "async-call" || name == "async-arith" || name == "async-str" || name == "async-slow" || name == "subquery-async"
+			async := name == "async-call" || name == "async-arith" || name == "async-str" || name == "async-slow" || name == "subquery-async" || strings.HasPrefix(name, "async-immediate")
 			// 1. select-list item
 			q := base()
 			q.Items = []Item{{E: Col("id")}, {E: f, Alias: "v"}}
 			add(q, name, "select-item", 2)
-			if async && name != "subquery-async" {
+			if async && name != "subquery-async" && !strings.HasPrefix(name, "async-immediate") {
 				// ... followed by an effect-only item (no column) that carries the same alias: the slot is still this item's
 				q2 := base()
 				q2.Items = []Item{{E: Col("id")}, {E: f, Alias: "v"}, {E: &Expr{K: "call", Qual: "SPIN", Name: "idf", Items: []*Expr{Num(1)}}, Alias: "v"}}
 				add(q2, name, "select-item-then-omitted-same-alias", 2)
 			}
-			if async && name != "subquery-async" {
+			if async && name != "subquery-async" && !strings.HasPrefix(name, "async-immediate") {
 				// ... in both sides of a UNION (distinct): equal rows are duplicates once the calls have completed
 				ub := base()
 				ub.Items = []Item{{E: Col("id")}, {E: f, Alias: "v"}}
@@ -455,6 +461,21 @@ func genAsyncNesting(r *Rand, tier string) []Case {
 			if rq := reroot(mk()); rq != nil {
 				add(&Stmt{From: &From{K: "table", Path: []string{"t"}}, Items: []Item{{E: Col("id")}, {E: &Expr{K: "sub", Q: rq}, Alias: "s"}}}, name, "row-subquery")
 			}
+		}
+		// an ASYNC call handed on through many ASYNC calls: nested in each other's arguments (12 deep), and as a column
+		// passed on by ASYNC calls of two nested derived tables — the slot chain is followed to its value
+		{
+			e := call(Col("n1"))
+			for d := 0; d < 12; d++ {
+				e = &Expr{K: "call", Qual: "ASYNC", Name: "idf", Items: []*Expr{e}}
+			}
+			add(&Stmt{From: &From{K: "table", Path: []string{"t"}}, Items: []Item{{E: Col("id")}, {E: e, Alias: "v"}}}, "async-in-async-arguments-12-deep", "top")
+			l1 := &Stmt{From: &From{K: "table", Path: []string{"t"}}, Items: []Item{{E: Col("id")}, {E: call(Col("n1")), Alias: "d"}}}
+			l2 := &Stmt{From: &From{K: "derived", Q: l1, Alias: "q"}, Items: []Item{{E: Col("q", "id"), Alias: "id"}, {E: &Expr{K: "call", Qual: "ASYNC", Name: "idf", Items: []*Expr{Col("q", "d")}}, Alias: "e"}}}
+			l3 := &Stmt{From: &From{K: "derived", Q: l2, Alias: "q2"}, Items: []Item{{E: Col("q2", "id"), Alias: "id"}, {E: &Expr{K: "call", Qual: "ASYNC", Name: "slowf", Items: []*Expr{Col("q2", "e")}}, Alias: "g"}}}
+			add(l3, "async-column-passed-on-by-async-twice", "top")
+			l4 := &Stmt{From: &From{K: "derived", Q: l3, Alias: "q3"}, Items: []Item{{E: &Expr{K: "call", Qual: "ASYNC", Name: "idf", Items: []*Expr{Col("q3", "g")}}, Alias: "h"}}}
+			add(l4, "async-column-passed-on-by-async-three-times", "top")
 		}
 		// the ASYNC call directly in a row-scoped subquery over dual whose FROM is a derived table (no direct call in the middle query)
 		mid := &Stmt{From: &From{K: "derived", Q: dualq(Col("<-", "n1")), Alias: "y"}, Items: []Item{{E: Col("y", "v"), Alias: "v"}}}
